@@ -68,7 +68,7 @@ func c09Check(c c09Case, r *ev.Rec) error {
 			return fmt.Errorf("parse %s: %v", name, err)
 		}
 		s := &c09Supplied{ast: fn}
-		if form == "parse" || form == "proto" {
+		if form == "parse" || form == "proto" || form == "parse-noast" {
 			pr, err := parser.ResultFromAST(fn, true, h)
 			if err != nil {
 				return fmt.Errorf("ResultFromAST %s: %v", name, err)
@@ -78,6 +78,10 @@ func c09Check(c c09Case, r *ev.Rec) error {
 			if form == "proto" {
 				s.proto = proto.Clone(pr.FileDescriptorProto()).(*descriptorpb.FileDescriptorProto)
 				s.protoBytes = detBytes(s.proto)
+			} else if form == "parse-noast" {
+				// a parse result that carries only the descriptor proto (parser.ResultWithoutAST)
+				s.res = parser.ResultWithoutAST(proto.Clone(pr.FileDescriptorProto()).(*descriptorpb.FileDescriptorProto))
+				s.ast = nil
 			} else {
 				s.resNodes = map[proto.Message]ast.Node{}
 				_ = walkPair(pr.FileDescriptorProto().ProtoReflect(), pr.FileDescriptorProto().ProtoReflect(), func(a, _ protoreflectMessage) error {
@@ -97,7 +101,7 @@ func c09Check(c c09Case, r *ev.Rec) error {
 		switch c.Forms[path] {
 		case "ast":
 			return protocompile.SearchResult{AST: s.ast}, nil
-		case "parse":
+		case "parse", "parse-noast":
 			return protocompile.SearchResult{ParseResult: s.res}, nil
 		case "proto":
 			return protocompile.SearchResult{Proto: s.proto}, nil
@@ -107,7 +111,7 @@ func c09Check(c c09Case, r *ev.Rec) error {
 	n := max(1, c.Parallel)
 	hasProtoForm := false
 	for _, fm := range c.Forms {
-		hasProtoForm = hasProtoForm || fm == "proto"
+		hasProtoForm = hasProtoForm || fm == "proto" || fm == "parse-noast"
 	}
 	var skipped atomic.Bool
 	errs := make([]error, n)
@@ -135,7 +139,7 @@ func c09Check(c c09Case, r *ev.Rec) error {
 				g := fdProto(f)
 				g, w = proto.Clone(g).(*descriptorpb.FileDescriptorProto), proto.Clone(w).(*descriptorpb.FileDescriptorProto)
 				// source info only exists (and is only comparable) when an AST was available
-				hasAST := func(p string) bool { fm, ok := c.Forms[p]; return !ok || fm != "proto" }
+				hasAST := func(p string) bool { fm, ok := c.Forms[p]; return !ok || fm != "proto" && fm != "parse-noast" }
 				if !hasAST(p) {
 					g.SourceCodeInfo, w.SourceCodeInfo = nil, nil
 				}
@@ -182,9 +186,9 @@ func c09Check(c c09Case, r *ev.Rec) error {
 	return nil
 }
 
-var c09Forms = []string{"source", "ast", "parse", "proto"}
+var c09Forms = []string{"source", "ast", "parse", "proto", "parse-noast"}
 
-const c09Rule = "each file of a valid workspace is supplied as source, AST, parse result or unlinked descriptor proto (generated assignment) x the four source-info modes x 1-4 concurrent compilations sharing the same supplied objects (race detector on); oracle: every produced descriptor equals the one from the all-source compilation, as messages decoded against the compiled schema (custom option values become known fields on both sides) (source info compared unless the file came as a bare proto), and every supplied proto / parse result has unchanged encoding and node lookups afterwards; non-trivial = at least two different forms in one compilation; distinct by case"
+const c09Rule = "each file of a valid workspace is supplied as source, AST, parse result, parse result without AST (parser.ResultWithoutAST) or unlinked descriptor proto (generated assignment) x the four source-info modes x 1-4 concurrent compilations sharing the same supplied objects (race detector on); oracle: every produced descriptor equals the one from the all-source compilation, as messages decoded against the compiled schema (custom option values become known fields on both sides) (source info compared unless the file came without an AST), and every supplied proto / parse result has unchanged encoding and node lookups afterwards; non-trivial = at least two different forms in one compilation; distinct by case"
 
 func TestC09_Generated(t *testing.T) {
 	ev.Run(t, ev.Spec[c09Case]{ID: "C09", Name: "Generated", Quick: 500, Thorough: 20000, Rule: "generated valid workspaces; " + c09Rule,
